@@ -9,6 +9,8 @@ import CedarVerif.Cedar.SymCompile
    Second form `(symc REQ (etys …) (ctxty ("attr" req|opt bool|long|string|(entity "T"))…) EXPR)` (attributes sorted by
    name): the context term is `ctxTermOf REQ.context ctxty` (= `Term::from_value`), the fragment is `SFrag2`
    (+ `context`, `e.a`, `e has a`); `(some (rec))` is printed for a folded record term.
+   THIRD fragment (`SFrag3`, the 5-argument form): set literals, `contains containsAll containsAny isEmpty`, set `==`;
+   a folded set term is printed `(some (set ELT…))` with the element encodings sorted as strings (canonical on both sides).
    `(outside-model)` for expressions outside the declared fragment `SFrag` / `SFrag2`; `(nonliteral)` can never be printed
    (theorem `compile_correct_fragment`) and would be a diff. -/
 namespace CedarVerif.Ops.SymCompileOp
@@ -39,7 +41,14 @@ def decCtxAttr : Sexp → Option (String × CtxAttrTy × Bool)
   | .list [.str a, .atom "opt", ty] => do let ty ← decCtxAttrTy ty; some (a, ty, false)
   | _ => none
 
+def encElt : Term → String
+  | .prim p => encPrimTerm p
+  | _ => "(nonprim)"
+
 def encFolded : CResult → String
+  | .ok (.some (.setNil _)) => "(some (set))"
+  | .ok (.some (.setCons t rest)) =>
+    "(some (set" ++ String.join ((sortStrings ((t :: setElts rest).map encElt)).map (" " ++ ·)) ++ "))"
   | .ok (.some (.prim p)) => "(some " ++ encPrimTerm p ++ ")"
   | .ok (.some .recNil) => "(some (rec))"
   | .ok (.some (.recCons _ _ _)) => "(some (rec))"
@@ -47,6 +56,7 @@ def encFolded : CResult → String
   | .ok (.none _) => "(none)"
   | .ok _ => "(nonliteral)"
   | .error .typeError => "(reject)"
+  | .error .unsupported => "(reject)"
   | .error .outside => "(outside-model)"
 
 def handleSymC (x : Sexp) : Option String :=
@@ -59,7 +69,7 @@ def handleSymC (x : Sexp) : Option String :=
   | .list [.atom "symc", req, .list (.atom "etys" :: etys), .list (.atom "ctxty" :: attrs), e] =>
     match decRequest req, etys.mapM decEty, attrs.mapM decCtxAttr, decExpr e with
     | some req, some etys, some attrs, some e =>
-      if inFrag2 e then
+      if inFrag3 e then
         match ctxTermOf req.context attrs with
         | some ctxT => some (encFolded (compile (litEnv2 req etys ctxT) e))
         | none => some "(outside-model)"
